@@ -109,7 +109,8 @@ class LiftRoles:
     def method(self, cls: ClassInfo, name: str) -> Optional[ast.FunctionDef]:
         """canonical form (private helpers inlined, locals propagated, ifs normalised) of the method defined in cls"""
         fn = cls.methods.get(name)
-        return None if fn is None else canon(self.prog, cls, fn)
+        # helpers inlined -- also public sibling methods (a constructor that calls reset() initialises what reset() initialises)
+        return None if fn is None else canon(self.prog, cls, fn, public=True)
 
 
 def _eval_guard(test: ast.AST, env: Dict[str, bool], rate: str, active: str, rec: str) -> Optional[bool]:
@@ -144,51 +145,69 @@ def _eval_guard(test: ast.AST, env: Dict[str, bool], rate: str, active: str, rec
     return None
 
 
-def _effects(stmts: List[ast.stmt], env: Dict[str, bool], roles: LiftRoles, ps: List[str], out: List[Tuple], undecided: List[str]) -> None:
+def _effects(stmts: List[ast.stmt], env: Dict[str, bool], roles: LiftRoles, ps: List[str], out: List[Tuple], undecided: List[str],
+             local: Optional[Dict[str, ast.AST]] = None) -> bool:
+    """
+    Execute the statements for one cell of the guard domain and collect the effects on the scheme's attributes.  Locals are
+    tracked (a value computed in a branch and applied afterwards is the same effect); returns False when the path has returned.
+    """
     rate, ident, active = ps
+    local = local if local is not None else {}
+
+    def resolve(e: ast.AST) -> ast.AST:
+        if isinstance(e, ast.Name) and e.id in local:
+            return local[e.id]
+        return e
+
+    def classify(e: ast.AST) -> str:
+        e = resolve(e)
+        if norm(e) == rate:
+            return "rate"
+        if isinstance(e, ast.UnaryOp) and isinstance(e.op, ast.USub) and norm(resolve(e.operand)) == rate:
+            return "-rate"
+        if norm(e) == ident:
+            return "id"
+        if isinstance(e, ast.Call) and norm(e.func).endswith("uniform") and len(e.args) == 2 \
+                and isinstance(e.args[0], ast.Constant) and e.args[0].value == 0 and norm(resolve(e.args[1])) == rate:
+            return "uniform(0,rate)"
+        return norm(e)
     for s in stmts:
         if isinstance(s, ast.Expr) and isinstance(s.value, ast.Constant):
             continue
         if isinstance(s, ast.Assert):
             continue
+        if isinstance(s, ast.Return):
+            return False
         if isinstance(s, ast.If):
             v = _eval_guard(s.test, env, rate, active, roles.rec)
             if v is None:
                 undecided.append(norm(s.test))
-                return
-            _effects(s.body if v else s.orelse, env, roles, ps, out, undecided)
+                return False
+            if not _effects(s.body if v else s.orelse, env, roles, ps, out, undecided, local):
+                return False
             continue
         if isinstance(s, ast.AugAssign) and self_attr(s.target) and isinstance(s.op, ast.Add):
-            val = norm(s.value)
-            if val == rate:
-                val = "rate"
-            elif isinstance(s.value, ast.Call) and norm(s.value.func).endswith("uniform") and len(s.value.args) == 2 \
-                    and isinstance(s.value.args[0], ast.Constant) and s.value.args[0].value == 0 and norm(s.value.args[1]) == rate:
-                val = "uniform(0,rate)"
-            out.append(("add", self_attr(s.target), val))
+            out.append(("add", self_attr(s.target), classify(s.value)))
+            continue
+        if isinstance(s, ast.Assign) and len(s.targets) == 1 and isinstance(s.targets[0], ast.Name):
+            local[s.targets[0].id] = resolve(s.value) if isinstance(s.value, ast.Name) else s.value
             continue
         if isinstance(s, ast.Assign) and self_attr(s.targets[0]):
             v = s.value
             if isinstance(v, ast.BinOp) and isinstance(v.op, ast.Add) and self_attr(v.left) == self_attr(s.targets[0]):
-                val = "rate" if norm(v.right) == rate else norm(v.right)
-                out.append(("add", self_attr(s.targets[0]), val))
+                out.append(("add", self_attr(s.targets[0]), classify(v.right)))
             else:
                 out.append(("set", self_attr(s.targets[0]), norm(v)))
             continue
         if isinstance(s, ast.Expr) and isinstance(s.value, ast.Call) and isinstance(s.value.func, ast.Attribute) \
                 and s.value.func.attr == "append" and self_attr(s.value.func.value):
-            a = s.value.args[0]
-            val = norm(a)
-            if isinstance(a, ast.UnaryOp) and isinstance(a.op, ast.USub) and norm(a.operand) == rate:
-                val = "-rate"
-            elif val == ident:
-                val = "id"
-            out.append(("append", self_attr(s.value.func.value), val))
+            out.append(("append", self_attr(s.value.func.value), classify(s.value.args[0])))
             continue
         if isinstance(s, (ast.Pass,)):
             continue
         undecided.append(norm(s))
-        return
+        return False
+    return True
 
 
 def check_insert(prog: Program, rep: Report, roles: LiftRoles) -> None:
@@ -325,7 +344,7 @@ def selection_walk(body: List[ast.stmt], roles: LiftRoles):
     problems: List[str] = []
     body = flat(body)
     loops = [s for s in body if isinstance(s, ast.For)]
-    if len(loops) != 1 or loops[0].orelse:
+    if len(loops) != 1:
         return False, ["not exactly one loop"], None
     loop = loops[0]
     env: Dict[str, str] = {}
@@ -338,6 +357,7 @@ def selection_walk(body: List[ast.stmt], roles: LiftRoles):
     state = {z: "prefix[i-1]" for z in zero}
     position = None
     tested = False
+    found_by_break = False
     for st in flat(loop.body):
         if isinstance(st, ast.AugAssign) and isinstance(st.op, ast.Add) and isinstance(st.target, ast.Name) and st.target.id in state:
             if _walk_value(st.value, env, roles) == NEG and state[st.target.id] == "prefix[i-1]":
@@ -348,7 +368,7 @@ def selection_walk(body: List[ast.stmt], roles: LiftRoles):
                 state[st.target.id] = "?"
                 env.pop(st.target.id, None)
             continue
-        if isinstance(st, ast.If) and not st.orelse and len(st.body) == 1 and isinstance(st.body[0], ast.Return) \
+        if isinstance(st, ast.If) and not st.orelse and len(st.body) == 1 and isinstance(st.body[0], (ast.Return, ast.Break)) \
                 and isinstance(st.test, ast.Compare) and len(st.test.ops) == 1:
             l, op, r = st.test.left, st.test.ops[0], st.test.comparators[0]
             lv = _walk_value(l, env, roles) if not (isinstance(l, ast.Name) and l.id in state and state[l.id] != PREFIX) else state[l.id]
@@ -365,7 +385,9 @@ def selection_walk(body: List[ast.stmt], roles: LiftRoles):
                 problems.append(f"position compared with {cum}, not with the prefix sum up to and including the current rate")
             if not le:
                 problems.append(f"comparison {norm(st.test)} is not `position <= prefix sum`")
-            if st.body[0].value is None or _walk_value(st.body[0].value, env, roles) != IDS:
+            if isinstance(st.body[0], ast.Break):
+                found_by_break = True
+            elif st.body[0].value is None or _walk_value(st.body[0].value, env, roles) != IDS:
                 problems.append(f"returns {norm(st.body[0].value) if st.body[0].value else None}, not the identifier of the same index")
             position = pexpr
             tested = True
@@ -373,6 +395,8 @@ def selection_walk(body: List[ast.stmt], roles: LiftRoles):
         return False, [f"loop statement not understood: {norm(st)}"], None
     if not tested:
         return False, ["no test in the loop"], None
+    if loop.orelse and not found_by_break:
+        return False, ["loop with an else clause"], None
     if any(v not in (PREFIX, "prefix[i-1]") for v in state.values()):
         pass
     if any(v == "prefix[i-1]" and k in {x.id for x in ast.walk(loop) if isinstance(x, ast.Name)} for k, v in state.items()):
@@ -380,7 +404,15 @@ def selection_walk(body: List[ast.stmt], roles: LiftRoles):
     after = body[body.index(loop) + 1:]
     fallback = after[0] if len(after) == 1 and isinstance(after[0], ast.Return) else None
     ok_fb = False
-    if fallback is not None and isinstance(fallback.value, ast.Subscript) and self_attr(fallback.value.value) == roles.ids:
+    if found_by_break:
+        # `break` at the hit, `else: index = -1` when the walk runs out, one `return ids[index]` after the loop
+        idx_names = [k for k, v in env.items() if v == IDX]
+        last = [a for a in loop.orelse if isinstance(a, ast.Assign) and len(a.targets) == 1 and isinstance(a.targets[0], ast.Name)
+                and a.targets[0].id in idx_names]
+        ok_fb = len(loop.orelse) == 1 and len(last) == 1 and norm(last[0].value) in ("-1", f"len(self.{roles.ids}) - 1", f"len(self.{roles.neg}) - 1") \
+            and fallback is not None and isinstance(fallback.value, ast.Subscript) and self_attr(fallback.value.value) == roles.ids \
+            and norm(fallback.value.slice) == last[0].targets[0].id
+    elif fallback is not None and isinstance(fallback.value, ast.Subscript) and self_attr(fallback.value.value) == roles.ids:
         sl = norm(fallback.value.slice)
         ok_fb = sl in ("-1", f"len(self.{roles.ids}) - 1", f"len(self.{roles.neg}) - 1")
     if not ok_fb:
